@@ -3,7 +3,9 @@ package props
 import (
 	"fmt"
 	"math/big"
+	"os"
 	"strings"
+	"sync"
 
 	"github.com/cockroachdb/apd/v3"
 
@@ -29,10 +31,45 @@ func arithCase(t *mon.T, which string, op string, c dec.Ctx, x, y dec.D) {
 	judge(t, which, op, c, x, y, e, o)
 }
 
+// Development-time dump of model expectations for the libmpdec cross-check
+// (tools/xcheck_round.py); enabled by VERIF_XCHECK_DUMP=<file>.
+var (
+	xcheckDump *os.File
+	xcheckMu   sync.Mutex
+	xcheckN    int
+)
+
+func init() {
+	if p := os.Getenv("VERIF_XCHECK_DUMP"); p != "" {
+		xcheckDump, _ = os.Create(p)
+	}
+}
+
+func xcheckWrite(op string, c dec.Ctx, x, y dec.D, e Expect) {
+	xcheckMu.Lock()
+	defer xcheckMu.Unlock()
+	if xcheckN >= 400000 {
+		return
+	}
+	xcheckN++
+	ys := ""
+	if y.C != nil {
+		ys = y.FullString()
+	}
+	want := "NaN"
+	if !e.ResNaN {
+		want = e.Res.FullString()
+	}
+	fmt.Fprintf(xcheckDump, "%s\t%d\t%d\t%d\t%s\t%s\t%s\t%s\t%s\t%s\n", op, c.P, c.Emin, c.Emax, c.Mode, x.FullString(), ys, want, br.FlagNames(e.Must), e.Class)
+}
+
 // judge compares one outcome with the model's expectation. which selects the
 // aspect: "value", "flags", "fit", or "all".
 func judge(t *mon.T, which string, op string, c dec.Ctx, x, y dec.D, e Expect, o Outcome) bool {
 	t.Eval()
+	if xcheckDump != nil && e.Skip == "" {
+		xcheckWrite(op, c, x, y, e)
+	}
 	if e.Skip != "" {
 		t.Skip(e.Skip)
 		if o.Flags&sysFlags != 0 && !e.SystemLimitOK {
